@@ -205,6 +205,12 @@ impl Context {
         let removed_from_rc = self.decrease_ref_count(state.memory_block_index);
         if removed_from_rc {
             self.memory_blocks.remove(state.memory_block_index);
+            // the blocks after the removed one (static blocks) have moved by one
+            for index in self.static_memory_blocks.values_mut() {
+                if *index > state.memory_block_index {
+                    *index -= 1;
+                }
+            }
         }
         state
     }
